@@ -107,7 +107,12 @@ fn strat(_: &Ctx) -> BoxedStrategy<Case> {
             // nothing after a disconnect except local calls is meaningful for timing-free comparison
             let mut unbind = unbind;
             if let Some(p) = steps.iter().position(|s| s.beh == Beh::Disconnect && needs_server(&s.call) && !local_failure(&s.call) && !matches!(s.call, Call::Abandon { .. })) {
-                steps.truncate(p + 1);
+                // ... but the calls answered locally (is_closed, get_peer_certificate, last_id) must also agree on a dead connection
+                // (only when the disconnected call itself waits for the server: an early-finished stream
+                // returns before the hang-up is seen, and what a later local call finds is then a race)
+                let observed = !matches!(&steps[p].call, Call::Search { how: How::Stream | How::StreamWith, read: Some(_), .. });
+                let tail: Vec<Step> = steps.split_off(p + 1).into_iter().filter(|s| observed && !needs_server(&s.call)).collect();
+                steps.extend(tail);
                 // whether an unbind after a disconnect still finds the driver alive is a race in both APIs
                 unbind = false;
             }
@@ -532,7 +537,7 @@ pub fn property() -> Property {
     Property {
         id: "C14",
         level: "exploration",
-        rule: "generated scripts of 1-7 calls (+ optional unbind) over the whole LdapConn/EntryStream surface: all four constructors (with_settings / from_url_with_settings over a pre-opened Unix socket pair, new / from_url over a real ldapi:// path), with_controls, with_timeout, with_search_options, simple_bind, sasl_external_bind, search, streaming_search, streaming_search_with(EntriesOnly) with EntryStream::next/result/last_id (read to the end or stopped early), add, compare, delete, modify (all Mod kinds), modifydn, extended, abandon, last_id, is_closed, get_peer_certificate, unbind; per call a scripted server behaviour: success (with entries and a reference), an error code, silence (with a 40 ms client timeout) or disconnect. The script is run twice against the same server logic: through LdapConn and through Ldap on a fresh current-thread runtime. Oracle: both transcripts decode (harness RFC 4511 decoder) to the same request sequence after normalising SET OF order, with the same message ids and controls; every return value (result fields, error variant and carried LdapResult, stream items, last_id(), is_closed()) is equal. Non-trivial: >=2 calls with >=1 modifier or a stream. Distinct = debug rendering of the script.",
+        rule: "generated scripts of 1-7 calls (+ optional unbind) over the whole LdapConn/EntryStream surface: all four constructors (with_settings / from_url_with_settings over a pre-opened Unix socket pair, new / from_url over a real ldapi:// path), with_controls, with_timeout, with_search_options, simple_bind, sasl_external_bind, search, streaming_search, streaming_search_with(EntriesOnly) with EntryStream::next/result/last_id (read to the end or stopped early), add, compare, delete, modify (all Mod kinds), modifydn, extended, abandon, last_id, is_closed, get_peer_certificate, unbind; per call a scripted server behaviour: success (with entries and a reference), an error code, silence (with a 40 ms client timeout) or disconnect (after a disconnect that the failing call observed, only the locally answered calls is_closed / get_peer_certificate / last_id follow). The script is run twice against the same server logic: through LdapConn and through Ldap on a fresh current-thread runtime. Oracle: both transcripts decode (harness RFC 4511 decoder) to the same request sequence after normalising SET OF order, with the same message ids and controls; every return value (result fields, error variant and carried LdapResult, stream items, last_id(), is_closed()) is equal. Non-trivial: >=2 calls with >=1 modifier or a stream. Distinct = debug rendering of the script.",
         assumptions: &["real time is used but never borderline: the server answers at once, or is silent and the client timeout is 40 ms in both runs; calls after a disconnect are not generated", "gssapi/ntlm methods are not compiled in the default feature set"],
         lanes: vec![Box::new(PLane { name: "scripts", cases: |t| t.pick(150, 2_000), strat, check })],
         workers: (8, 16),
